@@ -709,7 +709,7 @@ class Lemmas:
                         good = False
                         for cbb, a in rec:
                             g = guards_at(P, pdr, cbb)
-                            key_ok = re.search(r"some!\(\[T\]::get\((Deref::deref\()?self\.signals\)?, .*signal_index.*\)\)", a[1]) is not None
+                            key_ok = re.search(r"some!\(\[T\]::get\((Deref::deref\()?self\.signals\)?, .*signal_index.*\)\)|^self\.signals\[.*signal_index.*\]$|^Index::index\(self\.signals, .*signal_index.*\)$", a[1]) is not None
                             # the only way around the recording is the None edge of get(): column out of range
                             if key_ok and cfg.can_reach(cbb, {bb}):
                                 # paths to the push that avoid the recording must go through the None edge of that same get()
@@ -763,7 +763,7 @@ class Lemmas:
         return ok
 
     # -- OUTIDX: stored output positions are below the remembered answer length ----------------
-    def lemma_OUTIDX(self):
+    def lemma_OUTIDX(self, FLD="num_driver_outputs"):
         P, ok = self.P, True
         cons = P.constructors("data_row_iterator::OutputEntryIndex::Output")
         fns = sorted(set(b.name for b, _, _, _ in cons))
@@ -776,21 +776,21 @@ class Lemmas:
         if boi is None:
             return self._ob("OUTIDX", "anchor", False, "", "build_output_indices not found")
         # the two fields are written together, from the same answer
-        wl = [(x[0].name, x[1]) for x in P.field_writers(TESTDATA, "num_driver_outputs") if x[3] == "assign"]
+        wl = [(x[0].name, x[1]) for x in P.field_writers(TESTDATA, FLD) if x[3] == "assign"]
         wo = [(x[0].name, x[1]) for x in P.field_writers(TESTDATA, "output_indices") if x[3] == "assign"]
-        ok &= self._ob("OUTIDX", "who-writes-layout-fields", set(n for n, _ in wl) <= {boi.name} and set(n for n, _ in wo) <= {boi.name} and wl and wo, "%s / %s" % (wl, wo), "num_driver_outputs written in %s, output_indices in %s" % (wl, wo))
+        ok &= self._ob("OUTIDX", "who-writes-layout-fields", set(n for n, _ in wl) <= {boi.name} and set(n for n, _ in wo) <= {boi.name} and wl and wo, "%s / %s" % (wl, wo), "%s written in %s, output_indices in %s" % (FLD, wl, wo))
         good = False
         for n, bb in wl:
             for i, st in enumerate(boi.blocks[bb]["stmts"]):
-                if st["s"] == "assign" and any(isinstance(e, dict) and e.get("f") == "num_driver_outputs" for e in st["lhs"]["p"]):
+                if st["s"] == "assign" and any(isinstance(e, dict) and e.get("f") == FLD for e in st["lhs"]["p"]):
                     v = canon(P.sl(boi).rvalue(st["rv"], bb, i))
                     good = v == "[T]::len(outputs)"
-        ok &= self._ob("OUTIDX", "length-remembered-from-same-answer", good, "num_driver_outputs = outputs.len()", "num_driver_outputs is not the length of the answer the positions were taken from")
+        ok &= self._ob("OUTIDX", "length-remembered-from-same-answer", good, "%s = outputs.len()" % FLD, "the remembered length `%s` is not the length of the answer the positions were taken from" % FLD)
         # both assignments on the same straight path (same block or consecutive)
         if wl and wo:
             cfg = P.cfg(boi)
             a, b_ = wo[0][1], wl[0][1]
-            ok &= self._ob("OUTIDX", "fields-written-together", a == b_ or cfg.dominates(a, b_) or cfg.dominates(b_, a), "output_indices and num_driver_outputs are assigned on the same path", "output_indices and num_driver_outputs are assigned on different paths")
+            ok &= self._ob("OUTIDX", "fields-written-together", a == b_ or cfg.dominates(a, b_) or cfg.dominates(b_, a), "output_indices and %s are assigned on the same path" % FLD, "output_indices and %s are assigned on different paths" % FLD)
         # the pushed vector is the one stored
         return ok
 
@@ -1022,10 +1022,10 @@ def r_outidx(P, L, s, d):
         if cs is None:
             return (False, "closure creation site not found")
         g = guards_at(P, cs[0], cs[1])
-        good = any(x[0] == "Eq" and x[1] == "Vec::len(outputs)" and x[2] == "self.num_driver_outputs" for x in g)
-        if not good:
-            return (False, "the per-entry closure is not dominated by outputs.len() == self.num_driver_outputs (guards: %s)" % [x for x in g if x[0] in ("Eq", "Ne")])
-        return (L.need("OUTIDX"), "stored position < length of the first answer == length of this answer; lemma OUTIDX")
+        flds = [re.fullmatch(r"self\.(\w+)", x[2]).group(1) for x in g if x[0] == "Eq" and x[1] == "Vec::len(outputs)" and re.fullmatch(r"self\.(\w+)", x[2])]
+        if not flds:
+            return (False, "the per-entry closure is not dominated by outputs.len() == <a remembered length field> (guards: %s)" % [x for x in g if x[0] in ("Eq", "Ne")])
+        return (L.need("OUTIDX:" + flds[0]), "stored position < length of the first answer == length of this answer; lemma OUTIDX")
     return None
 
 
